@@ -525,7 +525,12 @@ func execVt(line string, oracle bool) (string, int32) {
 	default:
 		mut.Txid = sha("xv-garbage-id")
 	}
-	ok, _ := getState().VerifyTx(mut)
+	ok, verr := getState().VerifyTx(mut)
+	if !ok && verr == nil && oracle {
+		// Chain.SubmitTx (kernel/engines/xuperos/chain.go) consults only the error of VerifyTx before it calls DoTx:
+		// a refusal that carries no error is an admission
+		out.Violate(xvlib.Violation{Key: "refused-without-error", What: "VerifyTx refuses the transaction (false) but returns no error; Chain.SubmitTx checks only the error and admits it", Ops: []string{line}, Impl: []string{"ok=false err=nil"}})
+	}
 	if ok {
 		return "accept", base.Version
 	}
